@@ -1,7 +1,8 @@
 """C18 — remote contexts are unique per id, supply their workers' work, and clean up.
 
 A symbolic sequence of client operations (create / create duplicate / delete / delete unknown /
-start worker in context / start worker in unknown context) runs against the real RemoteServer in
+start worker in context / start worker in unknown context / a client that asks for a worker in a
+context and disconnects before sending it) runs against the real RemoteServer in
 the simulation and is compared with a dictionary model of the server's context table."""
 from collections import OrderedDict
 
@@ -16,7 +17,7 @@ from ..rt import Outcome, ev, notrace, conc
 from ..xh import Harness
 from ..main import PropSpec
 
-OPS = ["create", "delete", "worker", "worker-unknown", "delete-unknown"]
+OPS = ["create", "delete", "worker", "worker-unknown", "delete-unknown", "worker-abandoned"]
 NOPS = 6
 
 
@@ -49,6 +50,18 @@ def raw_delete(W, ctx_id):
         return recv_msg(so)
     finally:
         so.close()
+
+
+def raw_abandoned_worker(W, ctx_id):
+    """A client announces a worker for context ctx_id and goes away before the worker itself is sent."""
+    sockmod = remote.socket
+    so = sockmod.socket(sockmod.AF_INET, sockmod.SOCK_STREAM)
+    so.connect(wsim.SERVER_ADDR)
+    try:
+        send_msg(so, (ctx_id, True))
+    finally:
+        so.close()
+    W.sim.sleep(2)
 
 
 def _run(W, ops):
@@ -101,6 +114,13 @@ def _run(W, ops):
                 r = raw_delete(W, 9)
             except Exception as e:  # noqa
                 return "c18.delete-unknown-raises-%s" % type(e).__name__
+        elif op == "worker-abandoned":
+            try:
+                raw_abandoned_worker(W, i)
+            except Hang:
+                raise
+            except Exception as e:  # noqa
+                return "c18.abandoned-request-raises-%s" % type(e).__name__
         elif op in ("worker", "worker-unknown"):
             ci = i if op == "worker" else 9
             try:
@@ -126,6 +146,18 @@ def _run(W, ops):
             workers.append((w, ci, tag))
     if W.server_actor.state in ("done", "zombie"):
         return "c18.server-terminated"
+    # workers of a context that was never deleted keep doing the context's work
+    for (w, ci, tag) in workers:
+        if ci in model and model[ci][1] == tag:
+            try:
+                w.enqueue(x=7)
+                v = w.next_result()
+            except Hang:
+                raise
+            except Exception as e:  # noqa
+                return "c18.worker-of-a-live-context-stopped-working(%s)" % type(e).__name__
+            if v != ("ctx", tag, 7):
+                return "c18.worker-of-a-live-context-gives-wrong-result"
     # every context in the model must still be intact: a worker created in it runs the first registration's target
     for i, (ctx, tag) in sorted(model.items()):
         try:
